@@ -331,6 +331,10 @@ def gen_cases(tier: str, seed: int) -> List[Dict]:
             spec = S.make_poly_spec("a", names, sub, (), rng, 3, zero_prob=0.1, literal_prob=0.3, mode=rng.choice(["raw", "clean"]))
             n += 1
             cases.append({"id": "%s-%03d-sympy" % (PROP, n), "op": "sympy", "poly": spec, "options": {}, "limits": lim})
+    for coef in (9007199254740993, -(2 ** 62 + 5)):
+        n += 1
+        cases.append({"id": "%s-%03d-sympy-bigint" % (PROP, n), "op": "sympy", "options": {}, "limits": lim,
+                      "poly": {"kind": "poly", "names": ["q0", "q1"], "exps": [[0, 0], [1, 1], [2, 0]], "shape": [], "slots": [[7], [coef], ["a0"]], "mode": "raw"}})
     return cases
 
 
